@@ -364,12 +364,22 @@ func (f *FA) computeLoadClasses() {
 			if !ok || u.Op != token.MUL {
 				continue
 			}
-			fa, ok := u.X.(*ssa.FieldAddr)
-			if !ok {
+			var key, ek string
+			switch a := u.X.(type) {
+			case *ssa.FieldAddr:
+				key = fmt.Sprintf("%s.%d", f.canon(a.X), a.Field)
+				ek = FieldKey(a.X.Type(), a.Field)
+			case *ssa.IndexAddr:
+				// element loads of pointer-like elements (payloads[i] read twice in one iteration): same base
+				// value and same index value, no write to elements of that type in between
+				ek = sliceElemKey(a.X.Type())
+				if ek == "" || !pointerLike(u.Type()) {
+					continue
+				}
+				key = fmt.Sprintf("%s[%s]", f.canon(a.X), f.canon(a.Index))
+			default:
 				continue
 			}
-			key := fmt.Sprintf("%s.%d", f.canon(fa.X), fa.Field)
-			ek := FieldKey(fa.X.Type(), fa.Field)
 			assigned := false
 			for _, r := range reps[key] {
 				if !dominatesInstr(r.load, u) {
